@@ -10,6 +10,21 @@ open Py Datetime Datetime.Gen Datetime.Spec
 /-- every documented token is in the table with the documented zero padding, and nothing else is -/
 theorem table_pads : table.map (fun e => (e.1, e.2.1)) = docPads := by decide
 
+/-- the steps of `_compile_format` come in the modelled order: the default-format fast path is tested on the
+whole spec BEFORE the `!UTC` suffix is cut (so `<default>!UTC` takes the generic, UTC-converting path) -/
+theorem compile_steps_order : compileSteps = ["fast", "utc", "cut", "iso", "percent", "sevenS"] := by decide
+
+/-- every text a token alternative can match (a run of `S` up to six, see `seven_S_rejected`) is a key of the
+token table: no alternative matches something the table does not know, which the loop of `_compile_format`
+would silently turn into `token[1:-1]` -/
+def altTexts : Alt → List Str
+  | .lit s => [s]
+  | .rep c mn (some mx) => (List.range (mx + 1 - mn)).map (fun i => List.replicate (mn + i) c)
+  | .rep c mn none => (List.range (7 - mn)).map (fun i => List.replicate (mn + i) c)
+
+theorem alternatives_match_only_table_keys :
+    ∀ a ∈ tokenAlts, ∀ txt ∈ altTexts a, (lookup txt table).isSome = true := by decide
+
 /-- plain field tokens read the field they are documented to read -/
 theorem field_tokens (t : Tm) (dt : Dt) :
     k_YYYY t dt = t.tm_year ∧ k_MM t dt = t.tm_mon ∧ k_M t dt = t.tm_mon ∧
